@@ -56,7 +56,7 @@ import (
 
 type c02VP struct {
 	ID        string    `json:"id"`
-	Created   *int64    `json:"created"` // ms (virtual), nil = absent
+	Created   *int64    `json:"created"` // ns (virtual), nil = absent
 	Expires   *int64    `json:"expires"`
 	Signer    *string   `json:"signer"`
 	Subjects  []*string `json:"subjects"`
@@ -246,7 +246,9 @@ func c02VerifierSkew() time.Duration {
 	return 5 * time.Second
 }
 
+// nowMs is the virtual time in ms (generator); nowNs the virtual time in ns (operation time stamps)
 func (w *c02World) nowMs() int64 { return time.Now().UnixMilli() + w.shiftMs }
+func (w *c02World) nowNs() int64 { return time.Now().UnixNano() + w.shiftMs*1000000 }
 
 func (w *c02World) dpopHeader(d *c02DPoP) (string, *c02DPoP) {
 	if d == nil || d.Kind == "absent" {
@@ -400,7 +402,7 @@ func (w *c02World) issuedAt(name string) (int64, bool) {
 	if err := w.w.accessTokenServerStore().Get(w.tokReal[name], &rec); err != nil {
 		return 0, false
 	}
-	return rec.IssuedAt.UnixMilli() + w.shiftMs, true
+	return rec.IssuedAt.UnixNano() + w.shiftMs*1000000, true
 }
 
 func (w *c02World) pexVerdicts(scope string, assertion, submission *string) []int {
@@ -446,7 +448,7 @@ func (w *c02World) execS2S(op *c02Op) string {
 		body.Assertion, body.PresentationSubmission, body.ClientId = op.Assertion, op.Submission, nil
 		body.Scope = &op.Scope
 	}
-	op.T = w.nowMs()
+	op.T = w.nowNs()
 	out := c02Recover(func() string {
 		resp, err := w.w.HandleTokenRequest(w.ctx(hdr, ""), HandleTokenRequestRequestObject{SubjectID: op.Subject, Body: &body})
 		if err != nil {
@@ -471,7 +473,7 @@ func (w *c02World) execIntrospect(op *c02Op) string {
 	if r, ok := w.tokReal[op.Token]; ok {
 		real = r
 	}
-	op.T = w.nowMs()
+	op.T = w.nowNs()
 	return c02Recover(func() string {
 		rec := httptest.NewRecorder()
 		ctx := w.ctx("", "application/x-www-form-urlencoded")
@@ -597,7 +599,7 @@ func c02AllSubs(m map[string]struct {
 }
 
 func (w *c02World) execProbe(op *c02Op) string {
-	op.T = w.nowMs()
+	op.T = w.nowNs()
 	var err error
 	switch op.Store {
 	case "s2snonce":
@@ -653,7 +655,7 @@ func (w *c02World) execAdvance(op *c02Op) string {
 		return out
 	})
 	w.shiftMs += op.Ms
-	op.T = w.nowMs()
+	op.T = w.nowNs()
 	return "advanced"
 }
 
@@ -670,7 +672,7 @@ func (w *c02World) execSeed(op *c02Op) string {
 		PKCEParams:        PKCEParams{Challenge: s.Challenge, ChallengeMethod: s.Method},
 		OpenID4VPVerifier: newPEXConsumer(required),
 	}
-	op.T = w.nowMs()
+	op.T = w.nowNs()
 	if err := w.w.oauthClientStateStore().Put(*op.State, session); err != nil {
 		return "err:" + err.Error()
 	}
@@ -712,7 +714,7 @@ func (w *c02World) execAuthResp(op *c02Op) string {
 	if op.SubmissionPresent {
 		body.PresentationSubmission = op.Submission
 	}
-	op.T = w.nowMs()
+	op.T = w.nowNs()
 	return c02Recover(func() string {
 		resp, err := w.w.HandleAuthorizeResponse(context.Background(), HandleAuthorizeResponseRequestObject{SubjectID: op.Subject, Body: &body})
 		if err != nil {
@@ -747,7 +749,7 @@ func (w *c02World) execCode(op *c02Op) string {
 		c := w.realCode(*op.Code)
 		body.Code = &c
 	}
-	op.T = w.nowMs()
+	op.T = w.nowNs()
 	out := c02Recover(func() string {
 		resp, err := w.w.HandleTokenRequest(w.ctx(hdr, ""), HandleTokenRequestRequestObject{SubjectID: op.Subject, Body: &body})
 		if err != nil {
@@ -832,6 +834,8 @@ type c02Gen struct {
 	accepted []c02Op  // requests that were answered 200 (for verbatim replays)
 	lastVPs  []c02VPSpec
 	baseMs   int64
+	forceCreated *int64 // offset of `created` relative to now, when set
+	forceExpires *int64 // validity, when set
 }
 
 var c02ClaimNames = []string{"org_name", "org_city", "role", "level", "cnf", "aud", "iss", "client_id", "scope", "exp", "iat", "active", "sub",
@@ -984,7 +988,13 @@ func (v c02VPSpec) abstract() c02VP {
 		return a
 	}
 	// JSON-LD time stamps are parsed with millisecond precision as written
-	a.Created, a.Expires, a.Signer = v.Created, v.Expires, v.Signer
+	if v.Created != nil {
+		a.Created = c02Ptr(*v.Created * 1000000)
+	}
+	if v.Expires != nil {
+		a.Expires = c02Ptr(*v.Expires * 1000000)
+	}
+	a.Signer = v.Signer
 	for _, c := range v.Creds {
 		a.Subjects = append(a.Subjects, c.Subject)
 	}
@@ -1021,8 +1031,15 @@ func (g *c02Gen) baselineVP(subject string, d c02DefSpec, holder string, now int
 			created = now + 5300 // beyond the skew: not yet valid
 		}
 	}
+	validity := int64(g.rng.Intn(3)) * 2500 // 0, 2.5 or exactly 5 s
+	if g.forceCreated != nil {
+		created = now + *g.forceCreated
+	}
+	if g.forceExpires != nil {
+		validity = *g.forceExpires
+	}
 	vp := c02VPSpec{ID: fmt.Sprintf("%s#vp%d", holder, g.vpSeq), Signer: &holder, Verifies: true,
-		Created: c02Ptr(created), Expires: c02Ptr(created + int64(g.rng.Intn(3))*2500), // 0, 2.5 or exactly 5 s
+		Created: c02Ptr(created), Expires: c02Ptr(created + validity),
 		Domain: c02Ptr(c02PublicURL + "/oauth2/" + subject), Nonce: c02Ptr(fmt.Sprintf("n%d", g.nonceSeq))}
 	for _, in := range d.Descriptors {
 		c := c02CredSpec{Type: in.Type, Subject: &holder, Fields: map[string]interface{}{}}
@@ -1347,6 +1364,14 @@ func c02RunOps(t *testing.T, out *c02Out, ops []c02Op) {
 		op := &ops[i]
 		if op.Op == "cfg" {
 			w = c02NewWorld(t, *op)
+			if op.T != 0 {
+				// replay: the virtual clock continues from the recorded time, so that the time stamps inside the
+				// recorded presentations keep their meaning
+				// (whole seconds: iat/exp are truncated to seconds before they are translated back)
+				d := op.T/1000000 - time.Now().UnixMilli()
+				w.shiftMs = d - ((d%1000)+1000)%1000
+			}
+			op.T = w.nowNs()
 			out.emit(op, "cfg")
 			continue
 		}
@@ -1420,6 +1445,7 @@ func TestVerifC02(t *testing.T) {
 		g := &c02Gen{rng: rng, subjects: []string{"alpha", "beta"}}
 		cfg := g.newConfig(wi%3 == 2)
 		w := c02NewWorld(t, cfg)
+		cfg.T = w.nowNs()
 		out.emit(&cfg, "cfg")
 		nOps := 12 + rng.Intn(25)
 		for i := 0; i < nOps; i++ {
@@ -1471,4 +1497,34 @@ func TestVerifC02(t *testing.T) {
 		w.ctrl.Finish()
 	}
 	_ = sha256.Sum256
+}
+
+
+// TestVerifC02RealTime confirms the replay window on the REAL clock (no ageing): a presentation post-dated within the
+// verifier's skew is accepted, the handler forgets its nonce after the nonce TTL, and the very same presentation is
+// presented again while the verifier still accepts it. Only runs with VERIF_C02_REALTIME=<seconds to wait>.
+func TestVerifC02RealTime(t *testing.T) {
+	wait, err := strconv.ParseFloat(os.Getenv("VERIF_C02_REALTIME"), 64)
+	if err != nil {
+		t.Skip("VERIF_C02_REALTIME not set")
+	}
+	logrus.SetOutput(io.Discard)
+	g := &c02Gen{rng: rand.New(rand.NewSource(1)), subjects: []string{"alpha", "beta"}}
+	cfg := g.newConfig(false)
+	w := c02NewWorld(t, cfg)
+	g.forceCreated, g.forceExpires = c02Ptr(int64(4500)), c02Ptr(int64(5000))
+	var op c02Op
+	for {
+		op = g.s2sRequest(nil, w.nowMs())
+		if len(op.VPs) == 1 {
+			break
+		}
+	}
+	first := w.exec(&op)
+	t0 := time.Now()
+	time.Sleep(time.Duration(wait * float64(time.Second)))
+	again := op
+	again.DPoP = &c02DPoP{Kind: op.DPoP.Kind, Idx: op.DPoP.Idx}
+	second := w.exec(&again)
+	fmt.Printf("REALTIME first=%q after=%.1fs second=%q (created=now+4.5s expires=created+5s nonce=%s)\n", first, time.Since(t0).Seconds(), second, op.VPs[0].Nonce)
 }
